@@ -120,7 +120,8 @@ C06(e) ==
   \* "SkipRead forces a rebuild whose result is still stored": judged for a Get that ran alone (a concurrent Get may
   \* legitimately be handed the lock owner's result, whatever that owner read).
   /\ (e.ev = "ret" /\ e.p \in skipP /\ cnt.calls = 1) =>
-        /\ cnt.benter >= 1           \* neither the cache nor the failure cache may answer instead of the builder
+        /\ (cnt.benter >= 1 \/ (e.err # "" /\ BackendErrOK(e.k, e.err)))   \* neither the cache nor the failure cache may
+                                                                           \* answer instead of the builder (a failing backend may)
         /\ e.err = "" => (At(built, e.p, "") = e.v /\ e.v \in At(stored, e.k, {}))
 
 (* C09 (Failover part): every backend access a Get (or its background     *)
